@@ -44,7 +44,7 @@ const (
 func (prop) Gen(r *core.Rand, tier string) []core.Case {
 	n := 300
 	if tier == "thorough" {
-		n = 6000
+		n = 4000 // every case leaks the service's two background goroutines, and parrecv inspects all goroutine stacks
 	}
 	cs := []core.Case{
 		{ID: "fix-foreign-issuer", NT: true, Ops: []string{"reg 0 1", "reg 1 2", "recv 0 2 0 77 2 0", "cheques", "last 0", "last 1"}},
